@@ -3,7 +3,7 @@
    visible-doc-missing/revocation-token-skips-rows).  Witnesses evaluated on the whole-system model Sys.v, which the
    correspondence ties to the real database (operations in, snapshot and rows of every pull out). *)
 From SG Require Import Base.Prelude C20.SeqIdGen C20.SeqId
-  C13.Revocation C13.Feed C13.Client C13.GrantSys C13.Sys.
+  C13.Revocation C13.Feed C13.Client C13.GrantSys C13.Sys C13.Hyps C13.HypsB.
 Open Scope N_scope.
 
 (* (1) loss and re-grant of channel A (2) with a document moved out of A in between: the re-granted channel is
@@ -63,3 +63,74 @@ Example deleted_role_periods_missing_before_repair :
   /\ was_in_channel doc_history (granted_periods u roles 2) 2 4 = true
   /\ revoked_channels u roles 4 0 0 = [(2, 6)].
 Proof. vm_compute. repeat split; reflexivity. Qed.
+
+(* (4) known finding visible-doc-missing/role-created-after-grant, now with a model-level witness (sync-function grants are
+   part of Sys.v): document d3 grants channel A (2) to role r1; r1 is deleted and re-created; the re-created role gets A
+   from the access view stamped with d3's sequence (4), at or below the client's position: nothing is back-filled, the
+   client never receives d1 again *)
+Definition ops_role_created_after_grant : list sop :=
+  [SRChans 1 []; SURoles [1]; SPut 3 [] [(1, [2])] []; SPut 1 [2] [] []; SPull 0; SDelRole 1; SPull 0; SRChans 1 []; SPull 0].
+
+Lemma role_created_after_grant_trace :
+  map (fun o => (o_rows o, o_client o, o_caught o, o_visible o)) (trace ops_role_created_after_grant) =
+  [ ([mkRow 0 3 0 0 [] false false false true; mkRow 0 5 1 2 [] false false false false], [(1, 2)], true, [1]);
+    ([mkRow 6 5 1 2 [] false true false false], [], true, []);
+    ([], [], true, [1]) ].
+Proof. vm_compute. reflexivity. Qed.
+
+(* (5) finding stale-doc/restamped-grant-loses-period (found by the proof of C13_client_matches_visible_partial; reproduced
+   on the real database): channel A (2) reaches the user from a granting document d2 (stamped 3) and from an explicit
+   grant (stamped 5); when d2 stops granting, the rebuild keeps A but re-stamps it 5 and calculateHistory records nothing
+   for a kept grant; after A is lost the history says [5,7), which does not contain the client's position 3, so the
+   removal entry of d1 (which left A at 4) is not recognised as "was in the channel while the user had it" *)
+Definition ops_restamped_grant_loses_period : list sop :=
+  [SPut 1 [2] [] []; SPut 2 [3] [(0, [2])] []; SPull 0; SPut 1 [3] [] []; SUChans [2]; SPut 2 [3] [] []; SUChans []; SPull 0].
+
+Lemma restamped_grant_loses_period_trace :
+  map (fun o => (o_rows o, o_client o, o_caught o, o_visible o)) (trace ops_restamped_grant_loses_period) =
+  [ ([mkRow 0 1 0 0 [] false false false true; mkRow 3 2 1 1 [] false false false false], [(1, 1)], true, [1]);
+    ([mkRow 0 7 0 0 [] false false false true], [(1, 1)], true, []) ].
+Proof. vm_compute. reflexivity. Qed.
+
+(* ---- every defect-excluding hypothesis of C13_client_matches_visible_partial is needed: a history that satisfies all
+   the others and violates the conclusion ---- *)
+Definition violates (ops : list sop) : Prop :=
+  exists o, In o (trace ops) /\ o_caught o = true /\ same_docs (o_client o) (o_visible o) = false.
+
+Ltac violated n ops :=
+  exists (nth n (trace ops) (mkObs (mkSnap 0 (mkUser 0 [] [] [] []) [] [] []) [] [] false []));
+  vm_compute; split; [repeat (try (left; reflexivity); right) | split; reflexivity].
+
+(* (1) without no_refill: stale-doc/backfill-skips-removal *)
+Theorem C13_partial_needs_no_refill :
+  history_hyps_sel true true true false ops_backfill_skips_removal /\ violates ops_backfill_skips_removal.
+Proof. split; [apply history_hyps_b_ok; vm_compute; reflexivity | violated 1%nat ops_backfill_skips_removal]. Qed.
+Print Assumptions C13_partial_needs_no_refill.
+
+(* (2) without un-limited pulls: */revocation-token-skips-rows *)
+Theorem C13_partial_needs_unlimited :
+  history_hyps_sel false true true true ops_revocation_token_skips_rows /\ violates ops_revocation_token_skips_rows.
+Proof. split; [apply history_hyps_b_ok; vm_compute; reflexivity | violated 2%nat ops_revocation_token_skips_rows]. Qed.
+Print Assumptions C13_partial_needs_unlimited.
+
+(* (4) without no_stale_role: visible-doc-missing/role-created-after-grant *)
+Theorem C13_partial_needs_no_stale_role :
+  history_hyps_sel true false true true ops_role_created_after_grant /\ violates ops_role_created_after_grant.
+Proof. split; [apply history_hyps_b_ok; vm_compute; reflexivity | violated 2%nat ops_role_created_after_grant]. Qed.
+Print Assumptions C13_partial_needs_no_stale_role.
+
+(* (5) without no_restamp: stale-doc/restamped-grant-loses-period *)
+Theorem C13_partial_needs_no_restamp :
+  history_hyps_sel true true false true ops_restamped_grant_loses_period /\ violates ops_restamped_grant_loses_period.
+Proof. split; [apply history_hyps_b_ok; vm_compute; reflexivity | violated 1%nat ops_restamped_grant_loses_period]. Qed.
+Print Assumptions C13_partial_needs_no_restamp.
+
+(* granted_periods_cover cannot be strengthened to "exactly": for a channel a current role holds the function returns
+   one open period per channel of the role, stamped with THAT channel's sequence and not intersected with the time the
+   role was held (auth/user.go: "for _, channelInfo := range currentRole.CollectionChannels(...)").  Role r1 ("!" at 1,
+   A at 5) held since 7: the periods of A start at 1 and 5.  Harmless: the function is only consulted for revoked
+   channels, and a revocation row is never built for a document the user can see (C13_no_revocation_for_visible). *)
+Example granted_periods_over_approximate :
+  granted_periods (mkUser 1 [(1, 1)] [] [(1, 7)] []) [mkRole 1 false [(1, 1); (2, 5)] []] 2 = [(1, max64); (5, max64)]
+  /\ inherited (mkUser 1 [(1, 1)] [] [(1, 7)] []) [mkRole 1 false [(1, 1); (2, 5)] []] = [(1, 1); (2, 7)].
+Proof. vm_compute. split; reflexivity. Qed.
